@@ -56,6 +56,12 @@ CHECKS = {
         "Requested temperatures avoid the ambiguous band around the 1e-6 tolerance; first-row width not asserted (pinned by a unit test).",
         "DESIGN.md section 5 C08",
     ),
+    "C09": (
+        "Hypothesis @given multi-zone sites (incl. source/sink zones with an intermediate Both level); algebraic relations between reported records",
+        "Generated-input search (1k quick / 25k thorough): Total-Process = sum of child zones' DI targets (values, exact zonal cascades, each utility by name); site DI <= Total-Site <= Total-Process for Qh and Qc; Qr_TS = Qr_TZ + (Qh_TZ - Qh_TS). A measured share of cases has a Both level between a source and a sink zone and shows actual recovery.",
+        "Inequality directions are thermodynamic facts; no closed-form TS optimum is assumed; R6 finding excluded by an input-only predicate.",
+        "DESIGN.md section 5 C09",
+    ),
     "C20": (
         "Hypothesis @given over arrangement x label form x (NTU, c, passes): round-trip, bound, limit and symmetry oracles",
         "Generated-input search (12k quick / 600k thorough cases, 16 shards) against round-trip, counter-flow bound (independent formula), c=0 limit, monotonicity and LMTD bound/symmetry/refusal oracles; scalar float domain is sampled densely with 0/1 boosted, so a wrong formula or dispatch shows within seconds; absence is not proven.",
